@@ -204,6 +204,20 @@ def main():
         else:
             undecided.append(f"lemma {lr['name']} ({lr['status']})")
 
+    # facts about the class table of the parsed source (one obligation each; decided syntactically)
+    n_facts = 0
+    for fname, fprops, holds, text in getattr(reg, "facts", []):
+        if not any(p.split(".")[0] == prop for p in fprops):
+            continue
+        n_obl += 1
+        n_facts += 1
+        if holds:
+            n_dis += 1
+            backends["class table"] = backends.get("class table", 0) + 1
+        else:
+            violations.append((None, {"full": f"{prop}/{fname}", "witness": {"case": text}, "status": "sat", "kind": "class-table",
+                                      "name": fname, "backend": "class table of the parsed source", "goal": text, "trace": []}))
+
     # bounded stand-ins and native probes registered for the property
     bounded = []
     for b in call.BOUNDED.get(prop, []):
@@ -236,7 +250,7 @@ def main():
             confirmed, detail = native_replay(prop, r, ob, rep)
             rep["native_replay"] = detail
         else:
-            confirmed = True
+            confirmed = ob["kind"] != "class-table"     # bounded stand-ins report native failing inputs; class-table facts have none
         with open(path, "w") as f:
             json.dump(rep, f, indent=1, default=str)
         if ob["status"] == "candidate" and not confirmed and ob.get("key") not in baseline:
@@ -255,7 +269,7 @@ def main():
         exit_code = 3
     elif undecided:
         exit_code = 2
-    if not units and not lemmas and not bounded:
+    if not units and not lemmas and not bounded and not n_facts:
         problems.append("no checks registered for this property")
         exit_code = 3
 
